@@ -1,6 +1,6 @@
 //! C07 — Deserialization is total: any input gives a value or an error, never a panic.
 //!
-//! Token soup (every sequence of up to N tokens over a 23-token alphabet that contains every kind
+//! Token soup (every sequence of up to N tokens over a 25-token alphabet that contains every kind
 //! of construct the event reader accepts, well-formed or not), bare and wrapped in a root, plus
 //! every truncation of every valid document of the C06 family, is deserialized into every target
 //! type through `from_str` and `from_reader`. A watchdog turns non-termination into a violation;
@@ -324,9 +324,9 @@ pub fn de_target(t: usize, input: &[u8], via_reader: bool, piece: usize) -> Resu
     }
 }
 
-pub const TOKENS: [&str; 23] = [
+pub const TOKENS: [&str; 25] = [
     "<a>", "</a>", "<b>", "</b>", "<a/>", "<b x=\"1\"/>", "<c x=\"1\">", "</c>", "t", " ", "1", "<![CDATA[c]]>", "<![CDATA[]]>", "<!--c-->",
-    "<!DOCTYPE d>", "<?p?>", "&lt;", "&bad;", "<a xsi:nil=\"true\">", "<a x=\"1\" x=\"2\">", "<a x=>", "<a \"k='v\">", "<a xmlns:xsi=\"http://www.w3.org/2001/XMLSchema-instance\" xsi:nil=\"1\"/>",
+    "<!DOCTYPE d>", "<?p?>", "&lt;", "&bad;", "<a xsi:nil=\"true\">", "<a x=\"1\" x=\"2\">", "<a x=>", "<a \"k='v\">", "<a xmlns:xsi=\"http://www.w3.org/2001/XMLSchema-instance\" xsi:nil=\"1\"/>", "1\t2 \r\n3", "<b x=\"1\t2\n 3\"/>",
 ];
 
 // ------------------------------------------------------------------------------------------------
@@ -439,7 +439,7 @@ fn call(acc: &mut Acc, order: (u32, u64), input: &[u8], t: usize, via_reader: bo
 
 pub fn run(ctx: &Ctx) {
     ctx.set_rule(
-        "token soup: every sequence of up to N tokens over 23 tokens (start/end/empty tags of names a, b, c with and without \
+        "token soup: every sequence of up to N tokens over 25 tokens (start/end/empty tags of names a, b, c with and without \
          attributes, text, blank, number, CDATA, empty CDATA, comment, DOCTYPE, PI, a predefined and an unknown entity reference, \
          xsi:nil in two spellings, duplicate attribute, attribute without value, an attribute whose quote the iterator cannot close although the tag scanner could), bare and wrapped in \
          <r>..</r>; plus every truncation at every byte of every plain serialization of the C06 family's quick value set. Each \
@@ -494,7 +494,10 @@ pub fn run(ctx: &Ctx) {
             decode_upto(kw, maxw, i / 2, &mut d);
             let w: Vec<u8> = d.iter().flat_map(|&x| W[x as usize].iter().copied()).collect();
             let enc = if i % 2 == 0 { "windows-1251" } else { "Shift_JIS" };
-            let mut doc = format!("<?xml version=\"1.0\" encoding=\"{}\"?><r x=\"", enc).into_bytes();
+            let mut doc = format!("<?xml version=\"1.0\" encoding=\"{}\"?><r n", enc).into_bytes();
+            // a (possibly long) non-ASCII attribute name, then a list-valued attribute
+            doc.extend(w.iter().copied().filter(|b| *b != b' '));
+            doc.extend_from_slice(b"=\"1\" x=\"");
             doc.extend_from_slice(&w);
             doc.extend_from_slice(b"\"><a x=\"1\">");
             doc.extend_from_slice(&w);
